@@ -226,13 +226,14 @@ def literals_parse_back(tier, seed):
     from cassandra.query import bind_params
     rng = random.Random(seed)
     enc = Encoder()
-    fails, n = [], 0
+    fails, n, seen = [], 0, set()
     N = 4000 if tier == 'quick' else 100000
     for _ in range(N):
         v = gen_value(rng, 3)
         n += 1
         try:
             text = enc.cql_encode_all_types(v)
+            seen.add(text)
             lit = parse_one(text)
         except LexError as e:
             fails.append('%r rendered as %r does not lex as one term: %s' % (v, text, e))
@@ -264,8 +265,8 @@ def literals_parse_back(tier, seed):
                 fails.append('bind_params(%r, %r) = %r: %s' % (q, params, text, e))
             except Exception as e:
                 fails.append('bind_params(%r, %r) raised %r' % (q, params, e))
-    return {'name': 'literals-parse-back', 'kind': 'bounded', 'cases': n, 'evaluations': n, 'distinct_nontrivial': n,
-            'rule': 'parse(cql_encode_all_types(v)) is exactly one term denoting the value cqltypes would serialize for v; bind_params keeps the statement structure',
+    return {'name': 'literals-parse-back', 'kind': 'bounded', 'cases': n, 'evaluations': n, 'distinct_nontrivial': len([x for x in seen if x not in ('NULL', 'True', 'False') and len(x) > 2]), 'samples': sorted(seen, key=len)[-2:] + sorted(seen)[:2],
+            'rule': 'distinct = distinct rendered literals, non-trivial = longer than 2 characters and not NULL/True/False; parse(cql_encode_all_types(v)) is exactly one term denoting the value cqltypes would serialize for v; bind_params keeps the statement structure',
             'bound': '%d generated values nested to depth 3 over 16 scalar kinds (incl. hostile strings, far-future / pre-1970 / aware datetimes, exact decimals, subclasses), %d two-parameter substitutions' % (N, N // 10),
             'violations': fails[:3]}
 
